@@ -322,6 +322,12 @@ class Grammar:
                 self._build_body(sub, env, report_as=fn)
                 fn.stmts, fn.tail, fn.ir, fn.span_param = sub.stmts, sub.tail, sub.ir, sub.span_param
                 return
+        if len(body) == 1 and body[0]['k'] == 'expr' and not body[0].get('semi') and body[0]['e'].get('k') == 'call':
+            # helper written as a combinator expression: `fn h(p: &str) -> impl FnMut(Span) -> .. { map(keyword(p), ..) }`
+            ir = self.pexpr(body[0]['e'], fn, env)
+            if not any(n.get('op') == 'unmodelled' for n in iter_ir(ir)):
+                fn.stmts, fn.tail, fn.ir = [], ('apply', ir, None), ir
+                return
         fn.stmts, fn.tail = [('other', s) for s in body], ('other', None)
         fn.ir = self._unm(fn, fn.item['body'])
 
@@ -464,11 +470,24 @@ def _subst(ir, sub):
         return out
     out = {}
     for k, v in ir.items():
-        if k in ('f', 'init', 'args', 'fn', 'cond'):
+        if k == 'f' and isinstance(v, dict) and any(x[0] == 'lit' for x in sub.values()):
+            out[k] = _subst_ast(v, {n: x[1] for n, x in sub.items() if x[0] == 'lit'})
+        elif k in ('f', 'init', 'args', 'fn', 'cond'):
             out[k] = v
         else:
             out[k] = _subst(v, sub)
     return out
+
+
+def _subst_ast(e, lits):
+    """replace paths naming a literal-valued helper parameter by that string literal (closure bodies of inlined helpers)"""
+    if isinstance(e, list):
+        return [_subst_ast(x, lits) for x in e]
+    if not isinstance(e, dict):
+        return e
+    if e.get('k') == 'path' and e.get('p') in lits:
+        return {'k': 'lit', 't': 'str', 'v': lits[e['p']], 'l': e.get('l')}
+    return {k: _subst_ast(v, lits) for k, v in e.items()}
 
 
 def iter_ir(ir):
